@@ -162,6 +162,9 @@ def impl_gen(req):
             except KeyError:
                 outs.append("KeyError")
                 break
+            except Exception as e:  # noqa  (any other exception while producing a row is an outcome to report)
+                outs.append(type(e).__name__)
+                break
             outs.append({"row": row_nums(row), "calls": list(calls)})
     # the generator's pending-call flags and row counter, when they are still called what they were called
     # when this harness was written (private names: their absence is not a difference in behaviour)
